@@ -281,6 +281,10 @@ def enumerate_faults(fam, trace, hook_counts, tier):
     visits = {}
     for loc in trace:
         n = visits[loc] = visits.get(loc, 0) + 1
+        if tier == "quick" and n > 2 and not loc.startswith(("core.py:", "typemap.py:")):
+            # quick: every visit of every line of the state-changing modules (core, typemap); the
+            # first two visits of every line elsewhere (source rewriting, type order, code generation)
+            continue
         faults.append({"kind": "crash", "loc": loc, "nth": n, "exc": "interrupt"})
     m = len(faults)
     step = 1 if tier == "thorough" else 5
